@@ -29,6 +29,7 @@ pub fn random_html_case(rng: &mut Rng, contexts: &[Ctx], exclude: &[&str], allow
     if rng.chance(1, 10) {
         opts.iframe_srcdoc = true;
     }
+    opts.allow_shadow = rng.chance(1, 4);
     if rng.chance(1, 10) {
         opts.quirks = *rng.pick(&[QuirksMode::Quirks, QuirksMode::LimitedQuirks, QuirksMode::NoQuirks]);
     }
